@@ -361,12 +361,26 @@ fn fmt_shape(shape: &[usize]) -> String {
 
 const POISON: u64 = 0x7ff8_dead_beef_0001;
 
+thread_local! {
+    /// what a caller's buffer holds before a `*_into` call of the replayed history: the NaN poison (as in every reference answer), or a
+    /// distinctive finite value — tiny or huge — standing for contents left over from earlier use of the same buffer.  An answer must
+    /// not depend on it; elements still holding the prefill after the call are reported as poison, whatever it was.
+    static PREFILL: std::cell::Cell<u64> = const { std::cell::Cell::new(POISON) };
+}
+
+const LEFTOVERS: [u64; 3] = [POISON, 0x3001_2345_6789_abcd, 0x7e37_e43c_8800_759c];
+
+fn set_prefill(k: usize) {
+    PREFILL.with(|p| p.set(LEFTOVERS[k % LEFTOVERS.len()]));
+}
+
 fn poisoned(shape: &[usize]) -> ArrayD<f64> {
-    ArrayD::from_elem(IxDyn(shape), f64::from_bits(POISON))
+    ArrayD::from_elem(IxDyn(shape), f64::from_bits(PREFILL.with(|p| p.get())))
 }
 
 fn bits_of<D: Dimension>(a: &Array<f64, D>) -> Vec<u64> {
-    a.iter().map(|v| v.to_bits()).collect()
+    let pre = PREFILL.with(|p| p.get());
+    a.iter().map(|v| if v.to_bits() == pre { POISON } else { v.to_bits() }).collect()
 }
 
 fn oob(e: InterpolateError, buf: Vec<u64>) -> Answer {
@@ -827,6 +841,7 @@ fn replay_concurrent(
                     barrier.wait();
                     for _ in 0..3 {
                         for &i in seq {
+                            set_prefill(i + count);
                             let got = subject.run(&ops[i]);
                             count += 1;
                             if got != expected[i] {
@@ -888,6 +903,7 @@ fn run_history(idx: usize, rng: &mut Rng, stats: &mut Stats) {
     // reference answers: one fresh interpolator per op
     let mut expected = Vec::with_capacity(n_ops);
     for (i, op) in ops.iter().enumerate() {
+        set_prefill(0);
         let answer = match build(&cfg) {
             Ok(fresh) => fresh.run(op),
             Err(e) => Answer::Panic(format!("harness: {e}")),
@@ -918,6 +934,7 @@ fn run_history(idx: usize, rng: &mut Rng, stats: &mut Stats) {
             let mut bad = Vec::new();
             // A: original order
             for (i, op) in ops.iter().enumerate() {
+                set_prefill(i + 1);
                 let got = subject.run(op);
                 stats.executed += 1;
                 if got != expected[i] {
@@ -932,6 +949,7 @@ fn run_history(idx: usize, rng: &mut Rng, stats: &mut Stats) {
             let mut order: Vec<usize> = (0..n_ops).collect();
             shuffle(rng, &mut order);
             for &i in &order {
+                set_prefill(i + 2);
                 let got = subject.run(&ops[i]);
                 stats.executed += 1;
                 if got != expected[i] {
